@@ -294,8 +294,13 @@ const LONG_POOL: &[&str] = &[
   "日本語の長い文字列テスト",
   "zzzzzzzzzzzzzzzzzzzzzzzzzzzzzzzz",
   "0123456789abcdef0",
+  "fourteen-bytesé",                 // 16 bytes, ends in a multi-byte character
 ];
-const SHORT_POOL: &[&str] = &["", "a", "fifteen-bytes-x", "éééééé", "std", "DUMMY", "tuples", "_t3"];
+const SHORT_POOL: &[&str] = &[
+  "", "a", "fifteen-bytes-x", "éééééé", "std", "DUMMY", "tuples", "_t3",
+  // exactly 15 bytes whose LAST byte is a UTF-8 continuation byte (the inline representation's top byte)
+  "thirteen-byteé", "twelve-bytes日", "eleven-byte😀",
+];
 
 /// Profile "incremental": GC cycles as a client runs them — a mark phase that marks most live
 /// handles, then a sweep phase in slices of 1-2 slots until the cursor wraps, with marks on random
